@@ -19,6 +19,7 @@ type Loaded struct {
 	spkgs []*ssa.Package
 	funcs map[string]*ssa.Function
 	written map[*ssa.Global]bool
+	duals   map[string]bool
 }
 
 func loadRepo(repo string, patterns []string) (*Loaded, error) {
